@@ -29,6 +29,9 @@ func (fc *FnCtx) calleeKeys(c *ssa.CallCommon, fnv Val) (keys []string, callee *
 		callee = f
 	} else if fnv.Clo != nil {
 		callee = fnv.Clo.fn
+	} else {
+		// call of a function value: contract by the (named) function type
+		keys = append(keys, "dyn:"+fc.eng.typeName(c.Value.Type()))
 	}
 	if callee != nil {
 		n := fc.eng.fnName(callee)
@@ -406,7 +409,13 @@ func (fc *FnCtx) execAppend(st *State, s, e Val, rty types.Type, pos token.Pos) 
 	st.heap[k] = fc.sc.DefineConst(fc.hv[k].name, fc.hv[k].sort, ite(fits, inplace, fresh))
 	fc.bridge(et, st.heap[k], func(a, o, i string) string { return ite(fits, inAt(a, o, i), frAt(a, o, i)) })
 	res := ite(fits, app("mk_slice", sArr, sOff, n, app("cap", s.T)), app("mk_slice", newArr, "0", n, newCap))
-	rv := fc.mkVal(fc.sc.Define("app", sortSlice, res), rty)
+	rv := fc.mkVal(fc.sc.DefineConst("app", sortSlice, res), rty)
+	// append preserves the prefix, whichever of the two cases applies (a valid consequence of the
+	// definitions above, stated over the result slice and triggered from either side)
+	if isAtom(st.heap[k]) && isAtom(h) {
+		fc.sc.cmds = append(fc.sc.cmds, fmt.Sprintf("(assert (forall ((x!q Int)) (! (=> (and (<= 0 x!q) (< x!q %s)) (= (%s %s (arr %s) (off %s) x!q) (%s %s %s %s x!q))) :pattern ((%s %s (arr %s) (off %s) x!q)) :pattern ((%s %s %s %s x!q)))))",
+			sLen, at, st.heap[k], rv.T, rv.T, at, h, sArr, sOff, at, st.heap[k], rv.T, rv.T, at, h, sArr, sOff))
+	}
 	if isNumeral(eLen) && e.Sort != sortStr {
 		// name the appended elements in the new heap (a valid fact; gives the solver the ground
 		// terms that existential witnesses about "the element just appended" need)
